@@ -271,7 +271,7 @@ theorem gp_isXmlStrUnicode_chars : ∀ (fuel : Nat) (pos : Nat) (l : Bytes), Val
           exact this
 
 /-- `is_xml_str`: every character of the string is an XML character -/
-theorem isXmlStr_chars (hG : TablesGrammar T) (v : Span) (hv : ValidUtf8 v.bytes)
+theorem gram_isXmlStr_chars (hG : TablesGrammar T) (v : Span) (hv : ValidUtf8 v.bytes)
     (h : isXmlStr T txt v = .ok ()) : Chars T v.bytes := by
   unfold isXmlStr at h
   split at h
